@@ -670,7 +670,21 @@ pub async fn run_limit(case: &LimCase) -> LimOut {
         }
         Probe::SizeIn(d) => {
             let total = eff.size_in as i32 + d as i32;
-            if eff.size_in == 0 || total < 12 {
+            if eff.size_in == 0 {
+                // no limit in force (none configured, or lifted by the handshake): a packet beyond
+                // every limit that was configured anywhere goes through
+                let total = case.cfg_size.max(case.hs_size.unwrap_or(0)).max(200) as usize + 40 + d.unsigned_abs() as usize;
+                if let Some(p) = publish_of_size(ver, total, 0, 0, "sz") {
+                    c.peer.send(&p);
+                    c.settle().await;
+                    let delivered = app.count(|e| matches!(e, Ev::PubEnter { .. })) == 1;
+                    if !delivered || ended(&app) {
+                        o.violations.push(("packet refused although no maximum packet size is in force for this connection".into(), format!("{total} bytes — {what}")));
+                    }
+                } else {
+                    o.applicable = false;
+                }
+            } else if total < 12 {
                 o.applicable = false;
             } else if let Some(p) = publish_of_size(ver, total as usize, 0, 0, "sz") {
                 c.peer.send(&p);
@@ -767,7 +781,7 @@ pub fn random_limit(rng: &mut Rng) -> LimCase {
         cfg_recv: pick(rng, &[1u16, 3, 16]),
         hs_recv: pick(rng, &[None, None, Some(2u16), Some(5)]),
         cfg_size: pick(rng, &[0u32, 100, 1000]),
-        hs_size: pick(rng, &[None, None, Some(60u32), Some(200)]),
+        hs_size: pick(rng, &[None, None, Some(60u32), Some(200), Some(0)]),
         cfg_send: pick(rng, &[1u16, 4, 16]),
         hs_send: pick(rng, &[None, None, Some(2u16), Some(7)]),
         peer_recv: pick(rng, &[None, Some(1u16), Some(3), Some(100)]),
